@@ -46,7 +46,9 @@ KNOWN_RACES = [
               "corpus/C19/f11a_pattern_finalize.cue (`[=~\"^z\"]: int, a: 1`, Fields(cue.Patterns(true)) from 8 goroutines) and "
               "corpus/C19/f11b_failed_field_finalize.cue (`f2: {name: {e: 3, sub: int}, name: string}`, LookupPath(f2.name.sub) / LookupPath(f2.name.e))")},
     {"id": "F12",
-     "match": lambda rep: rep.count("adt.(*ValueError).Msg()") >= 2,
+     # the in-place write is in (*ValueError).Msg; the other access is the same write or the read of the same
+     # argument slice by the caller of Msg, cue/errors.writeErr (directly or inside fmt)
+     "match": lambda rep: "adt.(*ValueError).Msg()" in rep and (rep.count("adt.(*ValueError).Msg()") >= 2 or rep.count("cue/errors.writeErr()") >= 2),
      "text": ("data race on the UNCHANGED tree [finding F12]: internal/core/adt/errors.go (*ValueError).Msg boxes the Node arguments of a shared error "
               "IN PLACE (`args[i] = Formatter{...}` on the slice returned by e.Message.Msg()), so rendering the same error from two goroutines "
               "(Value.Syntax / yaml.Encode / Err().Error() on a shared value with a failed field) races; minimal witness corpus/C19/f12_error_msg.cue "
@@ -207,6 +209,26 @@ def question_coq(q):
     return "show_orun (c19_once_run %s %s)" % ("true" if lock else "false", sc)
 
 
+def run_model_corpus(exe):
+    """corpus/C19/model_cases.txt: fixed questions for the extracted models with their expected answers."""
+    path = os.path.join(vlib.VERIF, "corpus", "C19", "model_cases.txt")
+    cases = []
+    for line in open(path):
+        line = line.rstrip("\n")
+        if not line.strip() or line.startswith("#"):
+            continue
+        q, _, want = line.rpartition(" => ")
+        cases.append((q, want.strip()))
+    p = vlib.run([exe], input="\n".join(q for q, _ in cases) + "\n", timeout=600, stderr=None)
+    got = p.stdout.split("\n")[:-1]
+    if len(got) != len(cases):
+        raise vlib.CheckFailure("model corpus: %d answers for %d questions" % (len(got), len(cases)))
+    for (q, want), g in zip(cases, got):
+        if g.strip() != want:
+            raise vlib.CheckFailure("model corpus corpus/C19/model_cases.txt: `%s` answered `%s`, expected `%s`" % (q, g, want))
+    return len(cases)
+
+
 def vm_crosscheck(ctx, exe):
     qs = gen_model_questions(ctx.seed * 7919 + 13, 24 if ctx.tier == "quick" else 120)
     lines = [question_line(q) for q in qs]
@@ -287,7 +309,7 @@ def vm_crosscheck(ctx, exe):
                 for e in split_list(rt_s):
                     s, tok = split_top(e.strip()[1:-1])
                     tok = tok.strip()
-                    rt.append("%s:%s" % (render_str(s), "0" if tok == "None" else tok.replace("Some", "").strip()))
+                    rt.append("%s:%s" % (render_str(s), "-" if tok == "None" else tok.replace("Some", "").strip()))
                 coq = ",".join(ex) + " | " + ",".join(rt)
         if coq != out:
             raise vlib.CheckFailure("extracted model and vm_compute disagree on %s: ocaml=%r vm=%r" % (question_line(qq), out, coq))
@@ -605,7 +627,9 @@ def run(ctx):
 
     # 1. the models against the real index / cache
     t1 = time.time()
+    n_model_corpus = run_model_corpus(exe)
     vm = vm_crosscheck(ctx, exe)
+    vm["fixed_model_corpus_cases"] = n_model_corpus
     phase["vm_crosscheck"] = round(time.time() - t1, 1)
     t1 = time.time()
     nmodels = 16 if quick else 80
